@@ -36,7 +36,7 @@ struct C20 : Property
 	std::vector<std::string> probes() const override
 	{
 		return {"read.exactly_buffer_size", "read.final_short_read_of_1", "read.multiple_buffers", "write.loop_more_than_one_iteration", "write.bytewise", "error.first_call", "error.middle_call",
-		        "error.last_call", "open.failure", "alloc.failure_inside_from_fd", "alloc.failure_inside_to_fd", "parse.error_reported", "depth.limit_applied", "to_file.closes_once_on_error"};
+		        "error.last_call", "open.failure", "alloc.failure_inside_from_fd", "alloc.failure_inside_to_fd", "parse.error_reported", "depth.limit_applied", "depth.limit_above_default_used", "to_file.closes_once_on_error"};
 	}
 	std::map<std::string, int64_t> cfg_defaults() const override { return {{"sched", 0}}; }
 
@@ -73,6 +73,14 @@ struct C20 : Property
 		}
 		if (read_side && r.chance(1, 10))
 			text = std::string((size_t)r.range(2, 40), '[') + "1";
+		bool deep_doc = false;
+		if (read_side && r.chance(1, 8))
+		{
+			// well-formed document nested around and beyond the default limit of 32, for configured limits above it
+			size_t n = (size_t)r.range(28, 66);
+			text = std::string(n, '[') + "7" + std::string(n, ']');
+			deep_doc = true;
+		}
 		if (read_side && r.chance(1, 8))
 			text = r.pick(std::vector<std::string>{"123", "true", "\"s\"", "null", "1.5", " 7 "});
 		d.data = text;
@@ -80,7 +88,9 @@ struct C20 : Property
 		Op t;
 		t.kind = "io";
 		static const int serflags[] = {0, 1, 2, 3, 2 | 8, 16};
-		int64_t arg1 = read_side ? (r.chance(1, 2) ? -1 : (int64_t)r.range(1, 8)) : serflags[r.below(6)];
+		int64_t arg1 = read_side ? (deep_doc ? (r.chance(1, 4) ? -1 : (int64_t)r.range(30, 64)) : (r.chance(1, 2) ? -1 : (int64_t)r.range(1, 8))) : serflags[r.below(6)];
+		if (deep_doc && api == 3 && r.chance(1, 2))
+			api = 4; // the depth argument only exists on json_object_from_fd_ex
 		t.a = {api, arg1, (int64_t)r.below(4), (int64_t)r.below(100000)};
 		p.ops.push_back(t);
 		return p;
@@ -293,6 +303,8 @@ struct C20 : Property
 			std::string r2 = ref2.err == json_tokener_success && ref2.has_value ? ref2.dump : std::string("NULL");
 			if (ref1.err == json_tokener_error_depth)
 				ctx.probe("depth.limit_applied");
+			if (eff_depth > JSON_TOKENER_DEFAULT_DEPTH && ref1.err == json_tokener_success)
+				ctx.probe("depth.limit_above_default_used");
 			if (!(e.injected || e.fired))
 			{
 				if (e.result != r1 && e.result != r2)
